@@ -140,7 +140,7 @@ fn unit_cases(model: &mut Model, rep: &mut Report, rng: &mut Rng, n: u64, rt: &t
             text.push_str(&content);
             off += used as u64;
             pages += 1;
-            if used == 0 || off >= stored.len() as u64 || pages > 5000 {
+            if used == 0 || off >= stored.len() as u64 || pages > stored.len() + 16 {
                 break;
             }
         }
